@@ -279,6 +279,13 @@ func (p *polling) write(data types.BufferInterface, options *packet.Options) {
 	polling_log.Debug(`writing %#v`, data)
 	ctx := p.req.Load()
 	if ctx == nil {
+		if p.ReadyState() != "open" {
+			// the transport is being closed while the session was sending: the close packet and the
+			// session's last payload were both aimed at the one pending poll, and the other of the
+			// two has answered it. That is the close taking its course, not a transport error.
+			polling_log.Debug("transport closing, nothing left to write to")
+			return
+		}
 		p.OnError("polling write error", nil)
 		return
 	}
